@@ -265,3 +265,11 @@ def ref_padded_face(table, N, arrays, comp, f, widths, rules, fvs, isvec):
                         pos = (ly - k) if side == 0 else (ly + N - 1 + k)
                         exp[pos, lx + t] = v
     return exp
+
+
+def respell_flags(table, mode):
+    """the reverse flag of every link spelled as bool (0), numpy.bool_ (1) or int 0/1 (2): same table"""
+    import numpy as np
+
+    conv = {0: bool, 1: np.bool_, 2: int}[mode % 3]
+    return {f: {A: tuple(None if l is None else (l[0], l[1], conv(l[2])) for l in pair) for A, pair in ax.items()} for f, ax in table.items()}
